@@ -16,6 +16,24 @@ CHECKS = {
          "Held on all (state, address, c) triples of the histories produced, incl. forked trees with c>=2 and malformed/foreign addresses."),
  "C07": ("exploration","history monitor: best-chain header list vs get_block_headers for all ranges","4 C07",
          "Held on all (start,end) pairs up to tip+2 on every state of the histories produced (stable, unstable, straddling, truncated, error classes)."),
+ "C06": ("exploration","trace monitor over page chains with interleaved events; forged/random page blobs","4 C06",
+         "Held on the page chains produced: 0-2 events (best chain grows, competing fork grows, ancestors stabilise, first tip's chain discarded, upgrade) between consecutive page requests; concatenation compared with the ledger at the first response's tip; explicit-error outcomes only when that tip left the tree; no blob traps."),
+ "C08": ("fault_enumeration","twin-run differential + frozen-snapshot monitor under controlled per-round instruction budgets","4 C08",
+         "Held on the budget schedules produced (random, pause-everywhere, and every subset of pause positions for a designed small block): full user-visible snapshot at every pause point equals the one before the ingestion began, no get_successors request while ingesting, bounded rounds, final snapshot equals the unsliced twin's."),
+ "C10": ("exploration","history monitor: admission predicate by construction + model comparison after every response","4 C10",
+         "Held on the responses produced: 18 classes of bad elements at every position among valid blocks, valid-only responses with every kind of announced header (garbage, invalid, duplicate, unconnected, chained, stale); error counter +1 exactly, rest of the response dropped, tree and every address answer equal (previous state + valid prefix), no trap."),
+ "C12": ("exploration","differential against an own merkle/uniqueness checker over complete mutation families","4 C12",
+         "Held on valid blocks with every transaction count 1..40 and all their merkle-preserving duplications, swaps, removals, coinbase moves, root replacements, through BlockValidator::validate_block and state::insert_block."),
+ "C13": ("fault_enumeration","trace monitor over the request/reply log under a cooperative scheduler at the single await point","4 C13",
+         "Held on the schedules produced (random, and all op sequences up to a length bound over a 6-letter alphabet): single outstanding request, consecutive follow-ups, initial request after reject/upgrade naming anchor + all unstable hashes, bit-identical reassembly, no double application, zero error counters with an honest adapter, bounded progress after faults stop."),
+ "C15": ("exploration","history monitor: own nearest-rank over admissible populations, with stickiness per tip","4 C15",
+         "Held on the fee-paying histories produced (forks with different transactions, reorgs, empty blocks, eager/lazy, upgrades): every answer is 101 non-decreasing values equal to the nearest-rank percentiles of an admissible population, unchanged while the tip stays."),
+ "C16": ("exploration","per-call conservation monitor on the mock cycles ledger + finite client/default table comparison","4 C16",
+         "Held on the calls produced: random and default fee tables x instruction counts x error outcomes x attached cycles around the maximum; client constants compared with the default tables exhaustively (3 networks x 5 endpoints, stepped lengths)."),
+ "C19": ("exploration","differential against an own strict BIP144 parser (three-valued) + forward log","4 C19",
+         "Held on the payloads produced: generated transactions, every truncation, extensions, prefixes, all single-bit flips of small transactions, random bytes, zero-input encodings, under the flag x network matrix."),
+ "C20": ("exploration","structural invariant at a hook, recomputed from the model's live tree at every quiescent point","4 C20",
+         "Held on the histories produced (forks discarded at various depths, transactions shared between forks and spent in the same block, upgrades): tree = block cache = delta maps = live set, exact reference counts and tx outs, announced headers pruned, tip depths and per-block metrics exact."),
 }
 TRUST="native build of the canister crates with feature verif_hooks; reference model in harness/src/model.rs + parse.rs written from the statements; IC rollback-on-trap not emulated"
 props=[json.loads(l)["id"] for l in open("/verif/properties.jsonl")]
